@@ -37,7 +37,7 @@ LEVEL = "fault_enumeration"
 RULE = (
     "random: config (pre_ping, handle_error listener none|promote|nopool|promote+nopool, 1-2 Connections) x history (<=20 ops of exec / begin / "
     "begin_nested / sp_commit / sp_rollback / commit / rollback / close / connect on connection[i]) x fault plan (1-4 faults [site, k, disconnect|error] over "
-    "cursor/execute/commit/rollback/connect/ping/close). enum: fixed 9-op two-connection history x 4 configs x every single fault position (site, k, kind) "
+    "cursor/execute/commit/rollback/connect/ping/close). enum: fixed 14-op two-connection history x 4 configs x every single fault position (site, k, kind) "
     "[thorough: + every pair]. Non-trivial: an effective disconnect fired while a transaction or savepoint was open, or on commit / rollback itself, and "
     ">=2 further ops followed on that Connection; distinct = canonical JSON of (cfg, ops, plan)"
 )
